@@ -35,6 +35,11 @@ pub struct OpRecord {
     pub finished: bool,
 }
 
+thread_local! {
+    /// fail the k-th backend request submitted in the concurrent phase (faulted concurrent executions)
+    pub static FAIL_KTH: std::cell::Cell<Option<usize>> = const { std::cell::Cell::new(None) };
+}
+
 pub struct Execution {
     pub records: Vec<OpRecord>,
     pub deadlock: bool,
@@ -104,6 +109,9 @@ impl SchedScenario {
         let sim = world.sim.clone();
         let log_start = sim.borrow().reqs.len();
         sim.borrow_mut().mode = Mode::Scheduled;
+        if let Some(k) = FAIL_KTH.with(|c| c.get()) {
+            sim.borrow_mut().fault.fail_ids = [log_start + k].into_iter().collect();
+        }
         let dev: Rc<Dev> = Rc::new(world.dev.take().unwrap());
         let n = self.tasks.len();
         let step_ctr = Rc::new(Cell::new(0u64));
@@ -262,6 +270,8 @@ impl SchedScenario {
         }
         let recs = records.borrow().clone();
         sim.borrow_mut().mode = Mode::Immediate;
+        // the backend heals before the end state is judged
+        sim.borrow_mut().fault = Default::default();
         if !stuck {
             match Rc::try_unwrap(dev) {
                 Ok(d) => world.dev = Some(d),
